@@ -684,6 +684,8 @@ impl Scenario for Reclaim {
         let mut lazy = if bulk == 0 { LazyFreeList::new() } else { LazyFreeList::with_bulk_threshold(bulk) };
         let mut held: Vec<Tok> = vec![];
         let mut deferred: Vec<LazyFreeItem> = vec![];
+        let mut next_off = 0u32;
+        let mut retired: Vec<(u32, u32, u64)> = vec![];
         let mut n = 0u64;
         let mut freed = 0u64;
         let mut out_of_order = 0u64;
@@ -716,17 +718,23 @@ impl Scenario for Reclaim {
                 }
                 3 | 4 => {
                     let age = vm.current_version();
-                    let item = LazyFreeItem::new(age, o[1] as u32, 8);
+                    // retired blocks are disjoint ranges of one address space, laid out upwards; half of
+                    // them start exactly where the previous one ended (neighbours in memory)
+                    let size = [8u32, 16, 64][(o[3] % 3) as usize];
+                    let off = if o[1] % 2 == 0 { next_off } else { next_off + 64 };
+                    next_off = off + size;
+                    retired.push((off, size, age));
+                    let item = LazyFreeItem::new(age, off, size);
                     if o[2] % 2 == 0 {
                         deferred.push(item);
-                        cx.ev(&format!("retire age={} (queued later)", age));
+                        cx.ev(&format!("retire [{}..{}) age={} (queued later)", off, off + size, age));
                     } else {
                         if last_queued_age.map_or(false, |a| a > age) {
                             out_of_order += 1;
                         }
                         last_queued_age = Some(age);
                         lazy.push(item);
-                        cx.ev(&format!("retire age={}", age));
+                        cx.ev(&format!("retire [{}..{}) age={}", off, off + size, age));
                     }
                 }
                 _ => {
@@ -751,7 +759,31 @@ impl Scenario for Reclaim {
                                 ));
                             }
                         }
-                        evs.push(format!("free age={} (threshold {})", item.age, mv));
+                        // what is handed to the callback is memory: every retired block inside the freed
+                        // range is freed now, whatever age the item claims for it
+                        let (a, b) = (item.memory_offset, item.memory_offset + item.size);
+                        let mut covered = 0u32;
+                        retired.retain(|&(off, size, age)| {
+                            if off >= a && off + size <= b {
+                                covered += size;
+                                if let Some((k, v)) = live.iter().find(|(_, v)| *v <= age) {
+                                    if viol.is_none() {
+                                        viol = Some(Violation::new(
+                                            "reclaimed_while_visible",
+                                            "inv.reclaim.range",
+                                            format!("the callback was handed [{}..{}) (as age {}, threshold {}), which contains the block [{}..{}) retired at version {}, while a {} token of version {} is live", a, b, item.age, mv, off, off + size, age, KIND[*k], v),
+                                        ));
+                                    }
+                                }
+                                false
+                            } else {
+                                true
+                            }
+                        });
+                        if covered != item.size && viol.is_none() {
+                            viol = Some(Violation::new("freed_range_not_retired", "inv.reclaim.range", format!("the callback was handed [{}..{}) but only {} of its {} bytes belong to retired blocks that were not freed yet", a, b, covered, item.size)));
+                        }
+                        evs.push(format!("free [{}..{}) age={} (threshold {})", a, b, item.age, mv));
                     });
                     cx.ev(&format!("reclaim threshold={} live={:?}", mv, live));
                     for e in &evs {
